@@ -106,3 +106,34 @@ theorem res_real_pole (b : List ℝ) (R ct : ℝ) (hR0 : 0 < R) (hct : 1 < ct) :
     exact_mod_cast hq
 
 end ALV.C13
+
+namespace ALV.C13
+open ALV Complex
+
+/-- complex-pole regime (`ct² ≤ 1`): `R·(ct + j·√(1-ct²))` IS a pole (the poles exist: the radius
+statement `res_pole_radius` is not vacuous) -/
+theorem res_pole_exists (b : List ℝ) (R ct : ℝ) (hR : 0 < R) (hct : ct ^ 2 ≤ 1) :
+    IsPole (mk b [1, -(2 * R * ct), R ^ 2]) ((R : ℂ) * ((ct : ℂ) + (Real.sqrt (1 - ct ^ 2) : ℂ) * I)) := by
+  rw [isPole_second]
+  have hs : Real.sqrt (1 - ct ^ 2) ^ 2 = 1 - ct ^ 2 := Real.sq_sqrt (by linarith)
+  constructor
+  · intro h
+    have hre := congrArg Complex.re h
+    have him := congrArg Complex.im h
+    simp at hre him
+    rcases hre with h1 | h1
+    · exact absurd h1 hR.ne'
+    · rcases him with h2 | h2
+      · exact absurd h2 hR.ne'
+      · rw [h2] at hs; rw [h1] at hs; norm_num at hs
+  · have hs' : ((Real.sqrt (1 - ct ^ 2) : ℝ) : ℂ) ^ 2 = 1 - (ct : ℂ) ^ 2 := by
+      rw [← Complex.ofReal_pow, hs]; push_cast; ring
+    push_cast
+    have : ((R : ℂ) * ((ct : ℂ) + (Real.sqrt (1 - ct ^ 2) : ℂ) * I)) ^ 2
+        + -(2 * (R : ℂ) * (ct : ℂ)) * ((R : ℂ) * ((ct : ℂ) + (Real.sqrt (1 - ct ^ 2) : ℂ) * I)) + (R : ℂ) ^ 2
+        = (R : ℂ) ^ 2 * (1 - (ct : ℂ) ^ 2 - ((Real.sqrt (1 - ct ^ 2) : ℝ) : ℂ) ^ 2) := by
+      ring_nf
+      rw [Complex.I_sq]; ring
+    rw [this, hs']; ring
+
+end ALV.C13
